@@ -11,6 +11,7 @@ import (
 	"errors"
 	"flag"
 	"fmt"
+	"io"
 	"io/fs"
 	"os"
 	"path/filepath"
@@ -160,6 +161,56 @@ func main() {
 					}
 				}
 			}
+		}
+
+		// ------------------------------------------------ after a failed encryption the next file is still byte-exact
+		c.Part("encoder-after-failed-write")
+		c.Bound("an Encrypt (binary and armored, X25519 and scrypt) whose destination fails at write call 0..7 (with or without a partial count), followed by a tape-driven Encrypt compared byte for byte with the reference encoder")
+		if c.Shard == 0 {
+			for li, l := range [][]rcp{{alpha[0]}, {alpha[2], alpha[0]}, lists[len(lists)-3]} {
+				var rs []age.Recipient
+				for _, r := range l {
+					rs = append(rs, r.recipient())
+				}
+				for _, armored := range []bool{false, true} {
+					for k := 0; k < 8; k++ {
+						for _, partial := range []bool{false, true} {
+							fw := &failingWriter{failAt: k, partial: partial}
+							var dst io.Writer = fw
+							var aw io.WriteCloser
+							if armored {
+								aw = armor.NewWriter(fw)
+								dst = aw
+							}
+							if w, err := age.Encrypt(dst, rs...); err == nil {
+								w.Write(lab.Plain(C+5, 2))
+								w.Close()
+							}
+							if aw != nil {
+								aw.Close()
+							}
+							for rep := 0; rep < 2; rep++ {
+								id := fmt.Sprintf("l%d.a%v.k%d.p%v.r%d", li, armored, k, partial, rep)
+								c.Eval(1)
+								c.DistinctOnce(ev.HashStr(id))
+								plain := lab.Plain(50+rep, c.Seed)
+								tp := tape.New("c05-after-" + id)
+								tape.Install(tp)
+								out, err := lab.Encrypt(rs, plain, armored, nil)
+								tape.Restore()
+								if err != nil {
+									c.Fail("encrypt-failed", id, err.Error(), nil)
+									continue
+								}
+								if msg, det := compareWithReference(out, armored, l, plain, tp); msg != "" {
+									c.Fail("output-differs-from-age-v1/after-failed-write", id, "after an encryption whose destination failed: "+msg, det)
+								}
+							}
+						}
+					}
+				}
+			}
+			c.Sample(map[string]interface{}{"first": "Encrypt to a destination failing at write call 0", "then": "Encrypt under a tape, compared with the reference encoder"})
 		}
 
 		// ------------------------------------------------ decrypting side: reference-encoded files
@@ -729,4 +780,21 @@ func refVerdict(v *vector) (string, []byte) {
 		}
 		return "payload failure", last.Plain
 	}
+}
+
+type failingWriter struct {
+	failAt  int
+	partial bool
+	calls   int
+}
+
+func (w *failingWriter) Write(p []byte) (int, error) {
+	w.calls++
+	if w.calls > w.failAt {
+		if w.partial {
+			return len(p) / 2, io.ErrClosedPipe
+		}
+		return 0, io.ErrClosedPipe
+	}
+	return len(p), nil
 }
